@@ -28,7 +28,7 @@ ASSUMPTIONS = [
     "an exception raised by mashumaro's code generator while the class is being defined means the class cannot exist: no verdict (counted)",
     "first use = first instantiation, performed after all classes of the module (incl. forward-referenced ones) are defined",
 ]
-MUST_SEE = ["none_default_fields", "init_false_fields", "reject_at_first_use", "reject_at_definition", "override_changes_category", "newtype_node_in_tuple", "none_annotation", "child_verdicts", "prop_verdicts", "forward_refs", "postponed", "inherited", "reuse_after_rejection"]
+MUST_SEE = ["same_name_in_another_module", "none_default_fields", "init_false_fields", "reject_at_first_use", "reject_at_definition", "override_changes_category", "newtype_node_in_tuple", "none_annotation", "child_verdicts", "prop_verdicts", "forward_refs", "postponed", "inherited", "reuse_after_rejection"]
 CONFIG = {
     "quick": {"shards": 16, "d2_sample": 200, "d3_sample": 40, "layouts_per_ann": 3, "watchdog_s": 600},
     "thorough": {"shards": 32, "d2_sample": -1, "d3_sample": 2000, "layouts_per_ann": 99, "watchdog_s": 3400},
@@ -108,6 +108,10 @@ def run_batch(ctx, P, items, postponed_module: bool):
     forward-referenced class, then every class is used for the first time."""
     from pyoak.error import InvalidFieldAnnotations, InvalidTypes
 
+    # another module of the "application" declares a *node class* that bears the name of this module's enum
+    other = Universe(f"verif_c11_other_{P}", [], prelude_extra=f"@dataclass(frozen=True)\nclass {P}Color(ASTNode):\n    name: str = ''\n")
+    other.exec()
+    ctx.count("same_name_in_another_module")
     U = Universe(f"verif_c11_{P}", [], prelude_extra=AG.PRELUDE.replace("{P}", P))
     U.exec()
     ns = U.module.__dict__
